@@ -5,11 +5,44 @@ V = os.path.dirname(os.path.dirname(os.path.abspath(__file__)))
 props = [json.loads(l) for l in open(os.path.join(V, 'properties.jsonl'))]
 
 # id -> (technique, level text, level note, design ref)
+RC_NOTE = "trusted: vrt scheduler+shims, rewriter, in-memory transport, broker model (MQTT 3.1.1 server for one client id, QoS 2 receiver method A/B), independent codec, oracle; fault alphabet per client->broker packet {deliver, lost+peer closes, write error, processed+responses lost+peer closes} plus refused/absent CONNACK and dial error; bounded by N requests, F faults, P preemptions, S select deviations as stated in evidence.coverage.bounds"
 CHECKS = {
+ "C01": ("stateless exhaustive DFS over fault placements (F) x schedules (P,S) of the real ReconnectClient/RetryClient running under the vrt controlled scheduler against a broker model; oracle on the wire trace at quiescence",
+         "For every workload of <=N requests (QoS0/1/2 publish, subscribe, unsubscribe; submitted before Connect / when settled / immediately / during an outage) every placement of up to F faults over every client->broker packet, CONNECT/CONNACK and dial, and (for a focused family) every schedule with bounded preemptions is executed on the real code; at final quiescence every accepted request must have its completing acknowledgement on the wire. A coverage statement for the bound, which the timing-based integration tests cannot give.",
+         RC_NOTE, "DESIGN.md 3 C01"),
+ "C02": ("stateless exhaustive DFS over cut placements at PUBLISH/PUBREC/PUBREL/PUBCOMP/CONNECT of the real client against a QoS 2 receiver model (methods A and B); oracle on the broker's onward-delivery log and the wire trace",
+         "Every placement of up to F connection cuts (including several cuts hitting the same in-flight message) over workloads containing QoS 2 publishes is executed on the real retry path; the broker model's onward-delivery count per message must never exceed 1 and be 1 at quiescence, and nothing may be transmitted for a message after its PUBCOMP was received.",
+         RC_NOTE, "DESIGN.md 3 C02"),
+ "C03": ("stateless exhaustive DFS over fault placements of the real client with one submitting task; order oracle over every connection of the wire trace and the broker's first-delivery log",
+         "For all workloads of <=N requests from one submitting task and every placement of <=F faults: PUBLISH packets per connection are in submission order (retransmissions included), first transmissions are in submission order, and with close-only faults the broker first-delivers QoS>=1 messages in submission order.",
+         RC_NOTE, "DESIGN.md 3 C03"),
  "C04": ("exhaustive enumeration of all inbound packet sequences (length<=4 quick / <=6 thorough over a 12-symbol alphabet, 4 delivery modes) executed on the real BaseClient under the vrt controlled scheduler, compared step by step with a reference receiver",
          "Every broker->client sequence of the bounded alphabet is executed against the real reader goroutine under a controlled scheduler and its single timeline of handler calls and written acknowledgements must equal a reference QoS0/1/2 receiver written from MQTT 3.1.1 section 4.3; short sequences are additionally explored under all schedules with <=1 preemption and a yielding handler. Holds for every sequence within the bound, not for a sample.",
          "trusted: vrt scheduler+shims, rewriter, scripted peer, independent codec, reference receiver; unbounded sequence length and identifiers other than 1..3 are not covered",
          "DESIGN.md 3 C04"),
+ "C05": ("bounded-exhaustive input enumeration (all 268,435,456 remaining lengths in the thorough tier; field products at every length boundary) of the real packers and of a real BaseClient run under the vrt scheduler, judged by an independent MQTT 3.1.1 decoder",
+         "Every emitted packet of the enumerated space is decoded by a codec written independently from the specification and must be well-formed, minimally length-encoded and carry exactly the requested fields; inbound PUBLISH packets produced by the independent encoder must reach the handler unchanged; unencodable messages must be rejected with zero bytes written. The state space is the input space; executions of the real client run under the controlled scheduler so writes and handler calls lie on one deterministic timeline.",
+         "trusted: independent codec (env/codec.go, reviewed against the OASIS text), scripted peer, vrt scheduler for the client-level parts; strings/payloads beyond the listed alphabets and lengths are not covered",
+         "DESIGN.md 3 C05"),
+ "C06": ("bounded-exhaustive enumeration of byte strings handed to the 9 parsers and to readPacket (all streams of length<=6/7 over an 8-byte alphabet, every first byte) plus every listed malformed-packet category sent to a real BaseClient under the vrt scheduler; crash attribution through a marker file for unrecoverable runtime errors",
+         "All byte strings of the bounded space are run through the real parsers and the real read loop: no panic, no read request above 268,435,455 bytes, no fatal allocation (worker processes run under a memory limit and announce each input so that an unrecoverable crash is attributed to it); for every malformed category named in the statement the connection of a real client must end with Err()!=nil, Done() closed, exactly one Closed callback with an error, and the preceding well-formed messages delivered.",
+         "trusted: independent codec as classifier of malformed input, scripted peer, vrt scheduler; byte strings longer than the bound or outside the alphabet are not covered",
+         "DESIGN.md 3 C06"),
+ "C12": ("stateless exhaustive DFS over fault placements at every step of the QoS 1 / QoS 2 exchange (reconnecting client) and over BaseClient Publish -> ErrorWithRetry.Retry chains of depth <=4/5; every transmission attempt (failed writes included) judged",
+         "For every message and every placement of up to F faults (request lost, acknowledgement lost, write error, silence until the context expires) every PUBLISH/PUBREL attempt on the wire trace is judged: first attempt DUP=0, later ones DUP=1 with identical id/topic/payload/QoS/retain, QoS 0 attempted once, no PUBLISH after a successfully written PUBREL.",
+         RC_NOTE, "DESIGN.md 3 C12"),
+ "C14": ("bounded-exhaustive enumeration of all filter strings over {a,b,+,#,/} (length<=6 quick / <=8 thorough) x all topics over {a,b,/} (length<=5 / <=7) and of all ordered ServeMux registrations of <=3 handlers from an 8-filter pool, compared with an independent level-recursive reference of MQTT 3.1.1 section 4.7",
+         "The complete bounded input space is evaluated on the real validator, matcher and ServeMux and compared with a reference written from section 4.7 independently of filter.go; the state space is the input space.",
+         "trusted: the reference matcher/validator; alphabets larger than two literal characters and longer strings are not covered ('$' topics are excluded by the statement)",
+         "DESIGN.md 3 C14"),
+ "C19": ("bounded-exhaustive enumeration of error chains (depth<=3 quick / <=5 thorough, 6 wrapper kinds, 19 bases x 19 targets) and exhaustive schedule exploration (P<=2/3) of every request kind x failure step on real BaseClients, with Retry replayed on a fresh connected client; RetryClient response-timeout errors checked with errors.As",
+         "errors.Is on every generated chain must equal membership computed from the construction recipe; io.EOF and nil pass through; every interrupted QoS>=1 publish/subscribe/unsubscribe on a real client (write error, peer close, context cancel, also between PUBREC and PUBCOMP) returns an ErrorWithRetry whose Retry re-issues exactly that request on the client it is given; an expired response timeout is identifiable as RequestTimeoutError.",
+         "trusted: the construction-recipe oracle, scripted peer, vrt scheduler; chains deeper than the bound are not covered",
+         "DESIGN.md 3 C19"),
+ "C20": ("bounded-exhaustive enumeration of messages x lists of 1-3 mutating handlers through ServeMux, and exhaustive schedule exploration (P<=2/3) of ServeAsync handler tasks against a caller that mutates and reuses its message",
+         "Every handler of every enumerated (message, handler list, mutation kind) must observe exactly the original content and the caller's message must be unchanged; asynchronous handlers are real library goroutines run under the controlled scheduler against a caller overwriting its message after Serve returned, for all schedules within the preemption bound.",
+         "trusted: the oracle's deep-copy bookkeeping, vrt scheduler; payloads longer than 3 bytes and more than 3 handlers are not covered",
+         "DESIGN.md 3 C20"),
 }
 NA = {}
 
